@@ -281,7 +281,7 @@ func verifModelBinaryWrite(w io.Writer, order binary.ByteOrder, data any) error 
 //@ assert (*bufWriter).Write#1 : $in == sb.mem [C04]
 //@ assert persistFooter#1 : $numDocs == sb.numDocs && $storedIndexOffset == sb.storedIndexOffset && $fieldsIndexOffset == sb.fieldsIndexOffset && $sectionsIndexOffset == sb.sectionsIndexOffset && $docValueOffset == sb.docValueOffset && $chunkMode == sb.chunkMode && $crcBeforeFooter == sb.memCRC [C04,C09]
 //@ assert persistFooter#1 : typeis($writerIn, ptr_bufWriter) && payload($writerIn) == br [C04]
-//@ local ensures err == nil ==> !bwDirty(br.w) && !bwErr(br.w) && bwFlushedTo(br.w) == wrBytes(br.w) [C17]
+//@ local ensures err == nil ==> !bwDirty(br.w) && !bwErr(br.w) && bwFlushedTo(br.w) == wrBytes(br.w) [C04,C17]
 //@ ensures err == nil ==> n == len(sb.mem) + 52 [C04,C17]
 //@ ensures $liveFiles == old($liveFiles) && (forall r ref :: fileOpen(r) == old(fileOpen(r)) && fileSynced(r) == old(fileSynced(r)))
 //@ ensures forall p string :: fsExists(p) == old(fsExists(p))
@@ -587,7 +587,8 @@ func verifModelBinaryWrite(w io.Writer, order binary.ByteOrder, data any) error 
 //@ tags [C06,C09]
 //@ requires newRoaring != nil && locEncoder != nil
 //@ ensures ok ==> termCardinality == 1 && docNum <= 0x7fffffff && docNum == lastDocNum && lastFreq == 1 && normBits == lastNorm
-//@ ensures ok ==> 0 < normBits && normBits <= 0x7fffffff
+// (the reader recognises a single-hit record by its non-zero norm bits alone: with norm 0 the term would read back as empty)
+//@ ensures ok ==> 0 < normBits && normBits <= 0x7fffffff [C06,C08,C09]
 //@ end
 
 // finishing a term: whatever was collected for it is written out (or dropped when empty) and nothing of it is left
@@ -1259,17 +1260,17 @@ func lemmaUvLenRange(a []byte, o int) {}
 //@ end
 
 //@ func mergeFields returns (same, rv)
-//@ tags [C05,C11]
+//@ tags [C05,C06,C11]
 // the inputs of a merge are shared with concurrent readers and other merges: the unified field list is built in
 // storage of its own (the appends below therefore never land in an input's field list)
 //@ ensures fresh(rv) [C11]
 //@ requires forall i int :: 0 <= i && i < len(segments) ==> segments[i] != nil
 //@ ensures len(rv) >= 1 && rv[0] == "_id"
-//@ ensures same ==> (forall si int :: 0 <= si && si < len(segments) ==> old(sameFieldsAs0(segments, si))) [C05]
-//@ loop 1 invariant fieldsSame ==> (forall si int :: 0 <= si && si < $k ==> old(sameFieldsAs0(segments, si))) [C05]
+//@ ensures same ==> (forall si int :: 0 <= si && si < len(segments) ==> old(sameFieldsAs0(segments, si))) [C05,C06]
+//@ loop 1 invariant fieldsSame ==> (forall si int :: 0 <= si && si < $k ==> old(sameFieldsAs0(segments, si))) [C05,C06]
 //@ loop 1 invariant 0 <= $k && $k <= len(segments) && (len(segments) > 0 ==> segment0Fields == segments[0].fieldsInv)
-//@ loop 2 invariant fieldsSame ==> (forall si int :: 0 <= si && si < $k2 ==> old(sameFieldsAs0(segments, si))) [C05]
-//@ loop 2 invariant fieldsSame ==> (forall fi int :: {fields[fi]} 0 <= fi && fi < $k ==> len(fields) == len(segment0Fields) && fields[fi] == segment0Fields[fi]) [C05]
+//@ loop 2 invariant fieldsSame ==> (forall si int :: 0 <= si && si < $k2 ==> old(sameFieldsAs0(segments, si))) [C05,C06]
+//@ loop 2 invariant fieldsSame ==> (forall fi int :: {fields[fi]} 0 <= fi && fi < $k ==> len(fields) == len(segment0Fields) && fields[fi] == segment0Fields[fi]) [C05,C06]
 //@ loop 2 invariant 0 <= $k && $k <= len(fields) && fields == segment.fieldsInv && segment0Fields == segments[0].fieldsInv && len(segments) > 0 && 0 <= $k2 && $k2 < len(segments) && segment == segments[$k2]
 // every field name of every input is collected: the scan of an input's field list is never cut short, and each name
 // it passes is entered into the set the merged field list is built from
@@ -1277,7 +1278,7 @@ func lemmaUvLenRange(a []byte, o int) {}
 //@ loop 2 step haskey(fieldsExist, field) [C05]
 //@ loop 3 invariant fresh(rv) && base(rv) != nil
 //@ loop 3 invariant len(rv) >= 1 && rv[0] == "_id"
-//@ loop 3 invariant fieldsSame ==> (forall si int :: 0 <= si && si < len(segments) ==> old(sameFieldsAs0(segments, si))) [C05]
+//@ loop 3 invariant fieldsSame ==> (forall si int :: 0 <= si && si < len(segments) ==> old(sameFieldsAs0(segments, si))) [C05,C06]
 //@ end
 
 //@ func mapFields returns (rv)
@@ -1460,6 +1461,8 @@ func lemmaUvLenRange(a []byte, o int) {}
 // every field of the build gets its section address recorded in the same build
 //@ loop 1 step haskey(io.fieldAddrs, fieldID) && mapget(io.fieldAddrs, fieldID) == fieldStart [C01,C09,C10]
 // per posting of a term: the next freq/norm entry is consumed, and its numLocs location entries
+// every hit of a term - with or without locations - adds the term and a separator to its document's doc-value bytes
+//@ loop 4 step docNum < 0x3fffffffffffffff && int(docNum) < len(docTermMap) ==> len(docTermMap[int(docNum)]) == prev(len(docTermMap[int(docNum)])) + len(term) + 1 [C03]
 //@ loop 4 step 0 <= prev(freqNormOffset) && prev(freqNormOffset) < 0x3fffffffffffffff && 0 <= prev(locOffset) && prev(locOffset) < 0x3fffffffffffffff && freqNorm.numLocs < 0x3fffffffffffffff ==> freqNormOffset == prev(freqNormOffset) + 1 && locOffset == prev(locOffset) + ite(freqNorm.numLocs > 0, freqNorm.numLocs, 0) [C01,C09]
 //@ loop 4 step 0 <= prev(freqNormOffset) && prev(freqNormOffset) < len(freqNorms) ==> freqNorm.freq == freqNorms[prev(freqNormOffset)].freq && freqNorm.numLocs == freqNorms[prev(freqNormOffset)].numLocs && freqNorm.norm == freqNorms[prev(freqNormOffset)].norm [C01,C09]
 //@ assert (*chunkedIntCoder).Add#3 : $docNum == docNum && len($vals) == 1 [C01,C09]
@@ -1785,6 +1788,8 @@ func lemmaUvLenRange(a []byte, o int) {}
 //@ assert (*docValueReader).iterateAllDocValues.visitor#1 : $docNum == entry.DocNum && base($terms) == base(uncompressed) && (start <= 0x3fffffffffffffff ==> off($terms) == off(uncompressed) + int(start)) && ($k == 0 ==> start == 0) [C03,C06,C09]
 //@ loop 2 invariant $k == 0 ==> start == 0 [C03,C06,C09]
 //@ loop 1 early err != nil [C03,C06]
+// an empty chunk is passed over, it does not end the replay: the only way out before the last chunk is an error
+//@ loop 1 nobreak [C03,C06]
 //@ end
 
 // ---- C12 / C13 / C09: the synonym postings block and the synonym-term table ----
@@ -2261,6 +2266,10 @@ func lemmaSynonymCodeRoundTrip(synonymID, docID uint32) {
 //@ thin
 //@ tags [C03,C04]
 //@ loop 1 early err != nil [C03,C04]
+// a field is listed as having doc values only together with a reader for them: entries without a doc-value block
+// (no section offset, or the "not uninverted" marker, for which no reader is made) add no name
+//@ assert store s#1 : fieldDvReader != nil && len($v) == len(s.fieldDvNames) + 1 [C03,C04]
+//@ loop 2 step len(s.fieldDvNames) == prev(len(s.fieldDvNames)) || len(s.fieldDvNames) == prev(len(s.fieldDvNames)) + 1 [C03,C04]
 //@ end
 
 // the reader's convention: a field record "at offset 0" stands for "no record" (this is what finding F4b is about; the
@@ -2269,6 +2278,10 @@ func lemmaSynonymCodeRoundTrip(synonymID, docID uint32) {
 //@ thin
 //@ tags [C02,C04]
 //@ ensures pos == 0 ==> err == nil && len(s.fieldsInv) == old(len(s.fieldsInv)) [C02,C04]
+// every inverted-index entry of the field's section table adds exactly one dictionary location - 0 when the field has
+// no dictionary - so that the table stays indexed by field (Dictionary() looks it up by field id)
+//@ loop 1 step fieldSectionType == SectionInvertedTextIndex ==> len(s.dictLocs) == prev(len(s.dictLocs)) + 1 [C02,C08]
+//@ loop 1 step fieldSectionType == SectionInvertedTextIndex && fieldSectionAddr == 0 ==> s.dictLocs[len(s.dictLocs) - 1] == 0 [C02,C08]
 //@ end
 
 // ---- C03: doc values ----
@@ -2466,6 +2479,8 @@ func lemmaSynonymCodeRoundTrip(synonymID, docID uint32) {
 //@ ensures old(i.err) != nil && old(i.err) != vellum.ErrIteratorDone ==> e == nil && err == old(i.err) [C08]
 //@ ensures (old(i.err) == nil || old(i.err) == vellum.ErrIteratorDone) && (i.itr == nil || old(i.err) == vellum.ErrIteratorDone) ==> e == nil && err == nil [C08]
 //@ ensures e != nil ==> err == nil && i.entry.Term == old(vitKey(i.itr)) [C08]
+// an enumeration that is not exhausted yields its current term (whatever it is) unless reading its postings fails
+//@ ensures old(i.err) == nil && old(i.itr) != nil ==> (e != nil && err == nil) || (e == nil && err != nil && !i.omitCount) [C08]
 //@ ensures e != nil && !i.omitCount && !(uint64(old(vitVal(i.itr))) & FSTValEncodingMask == FSTValEncoding1Hit && (uint64(old(vitVal(i.itr))) >> 31) & mask31Bits == 0) ==> int(i.entry.Count) == sCard(docsAt(row(i.d.sb.mem), off(i.d.sb.mem), uint64(old(vitVal(i.itr))))) [C08]
 //@ ensures i.tmp.except == nil
 //@ end
